@@ -470,8 +470,50 @@ def run_C16(case):
                         )
                         if bad_:
                             raise Fail("C16.most_linked_quiescent", "most-linked query of webentity %r, although nothing changed during its execution, answers %s; eligible pages with indegrees %s; schedule %s" % (tk.spec["weid"], short(got), short(sorted(elig.items())), short(sch.schedule, 300)))
+                elif k == "we_children":
+                    prefs = set(tk.spec["prefixes_b"])
+                    w0 = tk.spec["weid"]
+
+                    def kids(sn):
+                        out_ = set()
+                        for q_, x_ in sn["pref"].items():
+                            if x_ != w0 and any(q_.startswith(p_) and len(q_) > len(p_) for p_ in prefs):
+                                out_.add(x_)
+                        return out_
+
+                    always_k = set.intersection(*[kids(sn) for sn in life])
+                    # a child id counts as "throughout" only if one and the same prefix carries it in every snapshot
+                    stable = set()
+                    for q_, x_ in life[0]["pref"].items():
+                        if x_ != w0 and any(q_.startswith(p_) and len(q_) > len(p_) for p_ in prefs) and all(sn["pref"].get(q_) == x_ for sn in life):
+                            stable.add(x_)
+                    some_k = set.union(*[kids(sn) for sn in life])
+                    got_k = set(tk.result)
+                    res.evals["C16.children_complete"] += 1
+                    if stable - got_k:
+                        raise Fail("C16.children_complete", "child-webentities query of %r misses %s which were attached below its prefixes throughout; answer %s; schedule %s" % (w0, sorted(stable - got_k), sorted(got_k), short(sch.schedule, 300)))
+                    res.evals["C16.children_sound"] += 1
+                    if got_k - some_k:
+                        raise Fail("C16.children_sound", "child-webentities query of %r lists %s which were below its prefixes at no moment; schedule %s" % (w0, sorted(got_k - some_k), short(sch.schedule, 300)))
                 elif k == "we_pagelinks":
                     fin = snaps[-1]
+                    combo = tk.spec["combo"]
+                    if combo in ([False, True, False], [False, False, True]):
+                        # a single class of links is asked for: a reported link must have belonged to that
+                        # class at some moment at which it existed
+                        w0 = tk.spec["weid"]
+                        want_internal = combo[1]
+                        res.evals["C16.pagelinks_class"] += 1
+                        for a_, b_, w_ in tk.result:
+                            ok_ = False
+                            for sn in life:
+                                if (a_, b_) in sn["out"]:
+                                    r_ = sn["pref"].get(resolve_in(sn["pref"], b_))
+                                    if (r_ == w0) == want_internal:
+                                        ok_ = True
+                                        break
+                            if not ok_:
+                                raise Fail("C16.pagelinks_class", "page-link query of webentity %r (%s only) reports %s -> %s, which was %s link of it at no moment at which it existed; schedule %s" % (w0, "internal" if want_internal else "outbound", short(a_), short(b_), "an internal" if want_internal else "an outbound", short(sch.schedule, 300)))
                     res.evals["C16.pagelinks_sound"] += 1
                     for a_, b_, w_ in tk.result:
                         if w_ > fin["out"].get((a_, b_), 0):
@@ -556,7 +598,85 @@ def run_C16(case):
     return res
 
 
+def gen_C16_focused(rng, tier, seed):
+    """Template: one site whose pages all sit in one webentity; a query on that
+    webentity, a rule installation that nests webentities inside it, and a
+    crawl batch linking its pages, all advanced in turns."""
+    site = rng.choice([b"s:http|h:com|h:site|", b"s:https|h:org|h:a|", b"s:http|t:8080|h:fr|h:b|"])
+    secs = [b"p:a|", b"p:b|", b"p:c|", b"p:blog|"]
+    leaves = [b"p:x|", b"p:y|", b"p:z|", b"p:post|", b"p:1|", b"p:2|"]
+    pages = []
+    for _ in range(rng.randint(4, 10)):
+        l = site + rng.choice(secs)
+        if rng.random() < 0.7:
+            l += rng.choice(leaves)
+        if rng.random() < 0.2:
+            l += rng.choice(leaves)
+        if l not in pages:
+            pages.append(l)
+    if rng.random() < 0.3:
+        pages.append(site)
+
+    def P():
+        return rng.choice(pages)
+
+    def newp():
+        return site + rng.choice(secs) + rng.choice(leaves) + rng.choice([b"", b"p:new|", b"q:k=v|"])
+
+    ops_ = [{"op": "add_pages", "lrus": [O.enc(x) for x in pages], "crawled": rng.random() < 0.5}]
+    links = [[O.enc(P()), O.enc(P())] for _ in range(rng.randint(2, 8))]
+    ops_.append({"op": "add_links", "links": links})
+    if rng.random() < 0.4:
+        ops_.append({"op": "create_we", "prefixes": [O.enc(site + rng.choice(secs))]})
+    case = {
+        "prop": "C16",
+        "seed": seed,
+        "obs_seed": rng.getrandbits(32),
+        "config": {"backend": "sim", "profile": "focused", "default": "domain", "rules": [], "sweep_every": 0},
+        "ops": ops_,
+    }
+    tasks = []
+    n = [0]
+
+    def tid():
+        n[0] += 1
+        return "t%d" % n[0]
+
+    qkind = rng.choice(["we_pages", "we_pagelinks", "we_pagelinks", "network", "network_slow", "we_outlinks", "we_inlinks", "we_children", "we_most_linked", "we_crawled_pages"])
+    q = {"id": tid(), "kind": qkind, "ref": O.enc(site)}
+    if qkind == "we_pagelinks":
+        q["combo"] = rng.choice([[False, True, False], [False, False, True], [True, True, True]])
+    if qkind in ("network", "network_slow"):
+        q["out"], q["auto"] = rng.random() < 0.5, rng.random() < 0.5
+    tasks.append(q)
+    if rng.random() < 0.8:
+        anchor = site if rng.random() < 0.6 else site + rng.choice(secs)
+        tasks.append({"id": tid(), "kind": "rule", "anchor": O.enc(anchor), "rule": rng.choice(["path1", "path1", "path2"])})
+    data = []
+    srcs = []
+    for _ in range(rng.randint(1, 3)):
+        s_ = P() if rng.random() < 0.7 else newp()
+        if s_ in srcs:
+            continue
+        srcs.append(s_)
+        ts = [(P() if rng.random() < 0.7 else newp()) for _ in range(rng.randint(1, 4))]
+        data.append([O.enc(s_), [O.enc(x) for x in ts]])
+    tasks.append({"id": tid(), "kind": "batch", "data": data, "yf": 1})
+    if rng.random() < 0.3:
+        q2 = dict(q)
+        q2["id"] = tid()
+        tasks.append(q2)
+    rng.shuffle(tasks)
+    case["tasks"] = tasks
+    name = rng.choice(POLICIES[:5] + ("uniform", "switch_after_write"))
+    case["policy"] = {"name": name, "stay": rng.choice([0.5, 0.8, 0.95]), "victim": rng.randrange(4)}
+    case["sched_seed"] = rng.getrandbits(32)
+    return case
+
+
 def gen_C16(rng, tier, seed):
+    if rng.random() < 0.35:
+        return gen_C16_focused(rng, tier, seed)
     g = Gen(rng, "C16", tier, allow_restart=False, nops=rng.choice([0, 2, 4, 6, 10, 16]))
     g.pool_size = min(g.pool_size, 16)
     g.pool = g.pool[:16]
@@ -575,7 +695,7 @@ def gen_C16(rng, tier, seed):
     if rng.random() < 0.85:
         kinds.append("batch")
     while len(kinds) < ntasks:
-        kinds.append(wchoice(rng, {"batch": 3, "rule": 1.5, "we_pages": 2, "network": 2, "add_page": 0.7, "add_links": 0.7, "network_slow": 0.8, "we_pagelinks": 0.8, "we_children": 0.4, "we_crawled_pages": 0.4, "we_most_linked": 0.6, "we_outlinks": 0.7, "we_inlinks": 0.7}))
+        kinds.append(wchoice(rng, {"batch": 3, "rule": 1.5, "we_pages": 2, "network": 2, "add_page": 0.7, "add_links": 0.7, "network_slow": 0.8, "we_pagelinks": 1.2, "we_children": 0.7, "we_crawled_pages": 0.4, "we_most_linked": 0.6, "we_outlinks": 0.7, "we_inlinks": 0.7}))
     rng.shuffle(kinds)
     for k in kinds:
         if k == "batch":
@@ -603,7 +723,7 @@ def gen_C16(rng, tier, seed):
                 ref = rng.choice(hosts or sp)
             spec = {"id": tid(), "kind": k, "ref": O.enc(ref)}
             if k == "we_pagelinks":
-                spec["combo"] = rng.choice([[True, True, True], [False, True, False], [False, False, True], [True, False, False], [False, True, True]])
+                spec["combo"] = rng.choice([[True, True, True], [False, True, False], [False, True, False], [False, False, True], [False, False, True], [True, False, False], [False, True, True]])
             tasks.append(spec)
         elif k in ("network", "network_slow"):
             tasks.append({"id": tid(), "kind": k, "out": rng.random() < 0.5, "auto": rng.random() < 0.5})
